@@ -190,7 +190,10 @@ impl<'tcx> Cx<'tcx> {
                             let hi = lo + n as usize;
                             if hi <= a.len() {
                                 let b = a.inspect_with_uninit_and_ptr_outside_interpreter(lo..hi);
-                                return (js(&String::from_utf8_lossy(b)), named);
+                                // lossless: one char per byte (Latin-1); the compressed format_args! templates
+                                // carry placeholder opcodes >= 0x80 that a lossy UTF-8 decoding would destroy
+                                let s: String = b.iter().map(|&x| x as char).collect();
+                                return (js(&s), named);
                             }
                         }
                     }
